@@ -10,6 +10,9 @@ import (
 )
 
 // consensusCmd represents the consensus command
+// Min frequency of the bipartitions (own variable: the default value differs from other commands)
+var consensusCutoff float64
+
 var consensusCmd = &cobra.Command{
 	Use:   "consensus",
 	Short: "Computes the consensus of a set of trees",
@@ -45,7 +48,7 @@ In the output consensus tree:
 			return
 		}
 		defer treefile.Close()
-		consensus, err = tree.Consensus(treechan, cutoff)
+		consensus, err = tree.Consensus(treechan, consensusCutoff)
 		if err != nil {
 			io.LogError(err)
 			return
@@ -59,5 +62,5 @@ func init() {
 	computeCmd.AddCommand(consensusCmd)
 	consensusCmd.PersistentFlags().StringVarP(&intreefile, "input", "i", "stdin", "Input tree")
 	consensusCmd.PersistentFlags().StringVarP(&outtreefile, "output", "o", "stdout", "Output file")
-	consensusCmd.PersistentFlags().Float64VarP(&cutoff, "freq-min", "f", 0.5, "Minimum frequency to keep the bipartitions")
+	consensusCmd.PersistentFlags().Float64VarP(&consensusCutoff, "freq-min", "f", 0.5, "Minimum frequency to keep the bipartitions")
 }
